@@ -141,6 +141,23 @@ def gsb (w : Wiring) (stored : Option Int) : Int :=
 def P05 (cfg : Cfg) (w : Wiring) (stored0 : Option Int) (lifes : List (List SRound)) (hist : List (Option Int × List Obs)) : Bool :=
   (chkAll cfg w (if w.latest then none else some (gsb w stored0)) lifes hist).isSome
 
+/-! ### what the checker is supposed to establish, said declaratively -/
+
+/-- the (scripted round, observation) pairs of a history, lifetime by lifetime -/
+def pairsOf : List (List SRound) → List (Option Int × List Obs) → List (Round × Obs)
+  | l :: ls, (_, os) :: rest => (l.map (·.1)).zip os ++ pairsOf ls rest
+  | _, _ => []
+
+/-- in this round block `b` was handed to EVERY handler (handlers 0 … nh−1, each on one and the same range that
+    contains `b`) and none of them was scripted to fail -/
+def HandledIn (cfg : Cfg) (p : Round × Obs) (b : Int) : Prop :=
+  completes cfg p.1 = true ∧ ∃ s, p.2.calls = callsUpTo cfg s cfg.nh ∧ s ≤ b ∧ b ≤ cfg.last s
+
+def Handled (cfg : Cfg) (ps : List (Round × Obs)) (b : Int) : Prop := ∃ p ∈ ps, HandledIn cfg p b
+
+/-- `StoreBlock(v)` was attempted somewhere in the history -/
+def StoredIn (ps : List (Round × Obs)) (v : Int) : Prop := ∃ p ∈ ps, ∃ w, p.2.store = some (v, w)
+
 /-- the rounds of a lifetime before its first scripted process death -/
 def alivePrefix (l : List SRound) : List Round := (l.takeWhile (·.2.isNone)).map (·.1)
 
